@@ -432,7 +432,7 @@ pub fn run_c10(chk: &Check, tier: Tier) {
     let nontrivial = AtomicU64::new(0);
     for &c in &channels {
         let sys = c11_system("C10", c, Report::default(), vals, false);
-        let out = xs::explore(&sys, &Limits { restoration_check: false, ..Default::default() });
+        let out = xs::explore(&sys, &Limits::default());
         engine::record(chk, &sys, &out, None);
         let states: Vec<ParameterNumberMessageScanner> = out.nodes.iter().map(|n| n.state.sc).collect();
         let fresh = ParameterNumberMessageScanner::new();
